@@ -41,9 +41,12 @@ func (s *Server) Set(ctx context.Context, req *gnmi.SetRequest) (*gnmi.SetRespon
 			userName = md.Get("name")
 		}
 		// TODO replace the following with fine grained RBAC using OpenPolicyAgent Regos
-		if err := utils.TemporaryEvaluate(md); err != nil {
-			log.Warn(err)
-			return nil, errors.Status(errors.NewUnauthorized(err.Error())).Err()
+		// Requests without any identity metadata (security disabled) are not subject to RBAC
+		if userName != "" || md.Get("groups") != "" {
+			if err := utils.TemporaryEvaluate(md); err != nil {
+				log.Warn(err)
+				return nil, errors.Status(errors.NewUnauthorized(err.Error())).Err()
+			}
 		}
 	}
 
